@@ -69,7 +69,7 @@ func taskProgram(t *tape.Tape, uniq string, n int) []string {
 		case 2:
 			out = append(out, fmt.Sprintf("f_%s := {|p_%s, q_%s: 1| [p_%s, q_%s, \\_]}; f_%s(5, q_%s: 2)", u, u, u, u, u, u, u))
 		case 3:
-			out = append(out, fmt.Sprintf("JSON.dec('{\"n_%s\": 1, \"m_%s\": [2]}').items", u, u))
+			out = append(out, fmt.Sprintf("JSON.dec(`{\"n_%s\": 1, \"m_%s\": [2]}`).items", u, u))
 		case 4:
 			out = append(out, fmt.Sprintf("o_%s := {w_%s: 7}.bear({v_%s: 8}); [o_%s.w_%s, o_%s.v_%s, o_%s.repr]", u, u, u, u, u, u, u, u))
 		case 5:
@@ -150,6 +150,7 @@ func schedChild(args []string) int {
 	run := fs.Uint64("run", 0, "")
 	explicit := fs.String("explicit", "", "JSON file with a SchedResult to replay (its tape and switches)")
 	withOps := fs.Bool("ops", false, "include the full symbol-table history")
+	mapOrd := fs.String("maporder", "", "kind:seed - permute every map range during the run (startup mode, non-race builds)")
 	fs.Parse(args)
 	var t *tape.Tape
 	var exp []seam.Switch
@@ -181,6 +182,14 @@ func schedChild(args []string) int {
 
 	switch *mode {
 	case "startup":
+		if *mapOrd != "" {
+			var kind string
+			var sd uint64
+			fmt.Sscanf(strings.Replace(*mapOrd, ":", " ", 1), "%s %d", &kind, &sd)
+			pol := &mapPolicy{kind: kind, seed: sd, rot: int(sd%7) + 1}
+			seam.MapOrder = pol.order
+			defer func() { seam.MapOrder = nil }()
+		}
 		seam.Begin(cfg)
 		it := harness.NewInterp() // di.InjectBuiltInProps with its 19 loaders as tasks
 		seam.Join()
